@@ -14,7 +14,7 @@ Theorem C11_source_shape :
   GenC11.root_prefix = "root."%string /\
   GenC11.cap_breaks_outer = true /\ GenC11.cap_counts_before_store = true /\
   GenC11.cap_is_max_key_length = true /\
-  GenC11.add_switch = [["string"]; ["int"]; ["int64"]; ["float64"]; ["bool"]; ["nil"]; ["default"]]%string /\
+  GenC11.first_value_always_written = true /\
   GenC11.root_uses_same_rendering = true /\ GenC11.float_whole_as_int = true /\
   GenC11.add_uses_append_value = true /\ GenC11.len_is_span_count = true /\
   GenC11.fields_sorted = true /\ GenC11.values_sorted = true /\
